@@ -777,7 +777,14 @@ func (r *fsmRig) monitorCleanup(id int, label string, seed *channels.VerifChanne
 	e1, e2 := steps[0].ev, steps[0].ev2
 	ending := map[datatransfer.EventCode]datatransfer.Status{datatransfer.Cancel: datatransfer.Cancelled, datatransfer.Error: datatransfer.Failed, datatransfer.Complete: datatransfer.Completed}
 	want, isEnding := ending[e1.Code]
-	if !isEnding || !bookkeepingEvents[e2.Code] || e2.Code == datatransfer.CompleteCleanupOnRestart {
+	// local lifecycle events may legitimately redirect an ending; nothing else may: in particular
+	// no message from the counterparty arriving while a cancel / failure is cleaning up
+	lifecycle := map[datatransfer.EventCode]bool{datatransfer.Open: true, datatransfer.Cancel: true, datatransfer.Error: true, datatransfer.Complete: true,
+		datatransfer.BeginFinalizing: true, datatransfer.CleanupComplete: true, datatransfer.CompleteCleanupOnRestart: true}
+	if !isEnding || e2.Code == datatransfer.CompleteCleanupOnRestart {
+		return
+	}
+	if !bookkeepingEvents[e2.Code] && (e1.Code == datatransfer.Complete || lifecycle[e2.Code]) {
 		return
 	}
 	cleanups, unprotects := 0, 0
@@ -790,8 +797,8 @@ func (r *fsmRig) monitorCleanup(id int, label string, seed *channels.VerifChanne
 		}
 	}
 	if cleanups != 1 || unprotects != 1 {
-		r.res.fail(monitorFailure{Property: "C09", CaseID: id, Signature: "cleanup-count:" + fmt.Sprintf("%d", cleanups) + ":bookkeeping-event-queued-during-cleanup",
-			What:  fmt.Sprintf("cleanup procedure ran %d times (unprotect %d) for one entry into a cleanup status; a bookkeeping event was queued while the cleanup handler ran", cleanups, unprotects),
+		r.res.fail(monitorFailure{Property: "C09", CaseID: id, Signature: "cleanup-count:" + fmt.Sprintf("%d", cleanups) + ":event-queued-during-cleanup",
+			What:  fmt.Sprintf("cleanup procedure ran %d times (unprotect %d) for one entry into a cleanup status; an event that is not a local lifecycle event was queued while the cleanup handler ran", cleanups, unprotects),
 			Input: label, Observed: cleanups, Expected: 1})
 	}
 	if final.Status != want {
